@@ -2,6 +2,9 @@
 // Matches C++ AGC's CBoundedPQueue behavior
 
 use std::collections::BinaryHeap;
+#[cfg(ragc_verif)]
+use crate::verif_sync::{Arc, Condvar, Mutex};
+#[cfg(not(ragc_verif))]
 use std::sync::{Arc, Condvar, Mutex};
 
 /// A priority queue bounded by total bytes (not item count)
@@ -99,11 +102,17 @@ impl<T: Ord> MemoryBoundedQueue<T> {
 
         // Wait while queue would be too full
         while inner.current_size + size_bytes > self.capacity_bytes && !inner.closed {
+            #[cfg(ragc_verif)]
+            ragc_common::verif::event("q_wait_full", size_bytes as u64, inner.items.len() as u64, inner.current_size as u64);
             inner = self.not_full.wait(inner).unwrap();
+            #[cfg(ragc_verif)]
+            ragc_common::verif::event("q_wake_full", size_bytes as u64, inner.items.len() as u64, inner.current_size as u64);
         }
 
         // Check if closed while we were waiting
         if inner.closed {
+            #[cfg(ragc_verif)]
+            ragc_common::verif::event("q_refuse", size_bytes as u64, inner.items.len() as u64, inner.current_size as u64);
             return Err(PushError::Closed);
         }
 
@@ -113,6 +122,8 @@ impl<T: Ord> MemoryBoundedQueue<T> {
             size: size_bytes,
         });
         inner.current_size += size_bytes;
+        #[cfg(ragc_verif)]
+        ragc_common::verif::event("q_admit", size_bytes as u64, inner.items.len() as u64, inner.current_size as u64);
 
         // Signal that queue is not empty
         self.not_empty.notify_one();
@@ -127,10 +138,14 @@ impl<T: Ord> MemoryBoundedQueue<T> {
         let mut inner = self.inner.lock().unwrap();
 
         if inner.closed {
+            #[cfg(ragc_verif)]
+            ragc_common::verif::event("q_refuse", size_bytes as u64, inner.items.len() as u64, inner.current_size as u64);
             return Err(TryPushError::Closed);
         }
 
         if inner.current_size + size_bytes > self.capacity_bytes {
+            #[cfg(ragc_verif)]
+            ragc_common::verif::event("q_would_block", size_bytes as u64, inner.items.len() as u64, inner.current_size as u64);
             return Err(TryPushError::WouldBlock);
         }
 
@@ -140,6 +155,8 @@ impl<T: Ord> MemoryBoundedQueue<T> {
             size: size_bytes,
         });
         inner.current_size += size_bytes;
+        #[cfg(ragc_verif)]
+        ragc_common::verif::event("q_admit", size_bytes as u64, inner.items.len() as u64, inner.current_size as u64);
 
         // Signal that queue is not empty
         self.not_empty.notify_one();
@@ -168,17 +185,25 @@ impl<T: Ord> MemoryBoundedQueue<T> {
 
         // Wait while queue is empty and not closed
         while inner.items.is_empty() && !inner.closed {
+            #[cfg(ragc_verif)]
+            ragc_common::verif::event("q_wait_empty", 0, inner.items.len() as u64, inner.current_size as u64);
             inner = self.not_empty.wait(inner).unwrap();
+            #[cfg(ragc_verif)]
+            ragc_common::verif::event("q_wake_empty", 0, inner.items.len() as u64, inner.current_size as u64);
         }
 
         // If closed and empty, return None
         if inner.items.is_empty() {
+            #[cfg(ragc_verif)]
+            ragc_common::verif::event("q_none", inner.closed as u64, 0, inner.current_size as u64);
             return None;
         }
 
         // Remove highest-priority item (BinaryHeap::pop returns max element)
         let priority_item = inner.items.pop().unwrap();
         inner.current_size -= priority_item.size;
+        #[cfg(ragc_verif)]
+        ragc_common::verif::event("q_take", priority_item.size as u64, inner.items.len() as u64, inner.current_size as u64);
 
         // Signal that queue has space
         self.not_full.notify_one();
@@ -193,12 +218,16 @@ impl<T: Ord> MemoryBoundedQueue<T> {
         let mut inner = self.inner.lock().unwrap();
 
         if inner.items.is_empty() {
+            #[cfg(ragc_verif)]
+            ragc_common::verif::event("q_none", inner.closed as u64, 0, inner.current_size as u64);
             return None;
         }
 
         // Remove highest-priority item (BinaryHeap::pop returns max element)
         let priority_item = inner.items.pop().unwrap();
         inner.current_size -= priority_item.size;
+        #[cfg(ragc_verif)]
+        ragc_common::verif::event("q_take", priority_item.size as u64, inner.items.len() as u64, inner.current_size as u64);
 
         // Signal that queue has space
         self.not_full.notify_one();
@@ -215,6 +244,8 @@ impl<T: Ord> MemoryBoundedQueue<T> {
     pub fn close(&self) {
         let mut inner = self.inner.lock().unwrap();
         inner.closed = true;
+        #[cfg(ragc_verif)]
+        ragc_common::verif::event("q_close", 0, inner.items.len() as u64, inner.current_size as u64);
 
         // Wake up all waiting threads
         self.not_full.notify_all();
